@@ -170,6 +170,14 @@ def gen_streams(tier):
     streams.append(assemble([b"x" * 100000 + marker(nxt()), valid_single()]))
     streams.append(assemble([valid_single(), b"y" * 5000 + marker(nxt())], final_newline=False))    # over-long unterminated last line
     streams.append(assemble([valid_single(), nmea.line(tag=marker(nxt()), n=0, k=1, payload=b"15M"), valid_single()]))
+    # a complete group whose payload does not decode, then an orphan tail with the same id: still an orphan
+    for bad in (b"F", b"X", b"0"):
+        i1, i2, i3 = nxt(), nxt(), nxt()
+        streams.append(assemble([valid_single(),
+                                 nmea.line(tag=marker(i1), n=2, k=1, sid=1, payload=bad + F.rand_armor(rnd, 9)),
+                                 nmea.line(tag=marker(i2), n=2, k=2, sid=1, payload=F.rand_armor(rnd, 5) + (b"X" if bad == b"X" else b"0")),
+                                 nmea.line(tag=marker(i3), n=3, k=3, sid=1, payload=corpus.PAYLOADS[0][0]),
+                                 valid_single()]))
     g3 = group(3)
     streams.append(assemble([g3[0], g3[1], nmea.line(tag=marker(nxt()), n=2, k=3, sid=None, payload=b"0000"), valid_single()]))
     streams.append(assemble([(b"\\" + marker(nxt()) + b"\\" + s) if not s.startswith(b"\\") and s.startswith(b"!") else (b"junk " + marker(nxt()))
